@@ -117,6 +117,17 @@ def read_state(fp, path, datapath=None):
         st["rows"] = [tuple(None if v is None or v != v else str(v) for v in (df[c].iloc[i] for c in cols))
                       for i in range(len(df))]
         st["kv"] = user_kv(pf.key_value_metadata)
+        # the handle exposes text: every key and value that is valid UTF-8 comes back as str (also the empty one)
+        def _is_text(x):
+            if isinstance(x, str):
+                return True
+            try:
+                x.decode("utf8")
+                return False          # decodable bytes exposed as bytes
+            except Exception:         # noqa  (not text at all: bytes are what it is)
+                return True
+        st["kv_text"] = all(_is_text(k) and _is_text(v) for k, v in pf.key_value_metadata.items()
+                            if k not in ("pandas", b"pandas"))
         st["rg_rows"] = [rg.num_rows for rg in pf.row_groups]
     except BaseException as e:   # noqa  (a broken file may raise anything, including from C code)
         st["open_exc"] = "%s: %s" % (type(e).__name__, str(e)[:120])
@@ -220,6 +231,9 @@ def replay_history(args):
                     elif opr["failg"]:
                         comp = {"c%d" % c: ("NOSUCHCODEC" if c == opr["failc"] else None) for c in range(1, NCOLS + 1)}
                     dfa = frame(pd, nrows, k * rp, bad, badval, kinds=kinds)
+                    if (hid + step) % 2:
+                        # the appended frame may list its columns in another order than the file (matched by name)
+                        dfa = dfa[list(reversed(dfa.columns))]
                     offs = [j * rp for j in range(max(k, 1))]
                     fp.write(path, dfa, append=True, row_group_offsets=offs, open_with=rec.open_with, compression=comp)
             except BaseException as e:  # noqa
@@ -269,6 +283,8 @@ def replay_history(args):
             if st["kv"] != conc:
                 info["viol"].append(dict(sig, what="key-value metadata differ from the model after " + opr["kind"]))
                 info["detail"] = {"kv": repr(st["kv"]), "expected": repr(conc)}
+            elif st.get("kv_text") is False:
+                info["viol"].append(dict(sig, what="a key or value that is valid text is exposed as bytes after " + opr["kind"]))
             de = tv0["footer_start"]
             if st["bytes"][:de] != before["bytes"][:de]:
                 info["viol"].append(dict(sig, what="bytes of existing row groups changed by " + opr["kind"]))
